@@ -75,3 +75,13 @@ pub fn android(arg: &str) -> (bool, String) {
         }
     }
 }
+
+/// C02 / C03: the text the client data carries for a web origin is the origin of the caller's URL: scheme://host[:port]
+/// (no user info, path, query or fragment).  arg = a URL.
+pub fn origin_text(arg: &str) -> (bool, String) {
+    let Ok(url) = Url::parse(arg) else { return (false, "not a URL".into()) };
+    let got = Origin::Web(Cow::Owned(url.clone())).to_string();
+    let mut want = format!("{}://{}", url.scheme(), url.host_str().unwrap_or(""));
+    if let Some(p) = url.port() { want.push_str(&format!(":{p}")); }
+    (got != want, format!("origin text {got:?} for URL {arg:?} (the caller's origin is {want:?})"))
+}
